@@ -540,6 +540,10 @@ class Worker:
 
         # Cancel any open tasks
         for mailbox_id in list(self._active_task.owned_mailboxes):
+            if mailbox_id not in self._mailboxes:
+                # Already dropped by a cancel handled in the meantime
+                continue
+
             # If task is complete, simply discard result
             if mailbox_id in self._mailboxes:
                 if self._mailboxes[mailbox_id].ready:
